@@ -1036,3 +1036,185 @@ func (c *Check) absoluteFormIsCurrent() {
 		}
 	}
 }
+
+// matchIndicesApplyToMatchedString (C11-R12): positions reported by a regexp Find*Index call
+// index the string that was searched.  In the frame-name simplifier every slice expression
+// whose bounds come from such a call slices that same string value: applied to another string
+// (the untrimmed name, one character longer for ".foo" names) the reserved-name test looks at
+// shifted text and the argument list is cut at the wrong place.
+func (c *Check) matchIndicesApplyToMatchedString() {
+	p := c.P
+	n := 0
+	forAllPkgFuncs(p, "profile", func(f0 *ssa.Function) {
+		if !strings.HasSuffix(p.Fset.Position(f0.Pos()).Filename, "/prune.go") {
+			return
+		}
+		forEachFuncAndAnon(f0, func(f *ssa.Function) {
+			var finds []*ssa.Call
+			for _, b := range f.Blocks {
+				for _, ins := range b.Instrs {
+					if call, ok := ins.(*ssa.Call); ok {
+						if cal := call.Call.StaticCallee(); cal != nil && fnPkgPath(cal) == "regexp" && strings.HasPrefix(cal.Name(), "Find") && strings.HasSuffix(cal.Name(), "Index") && len(call.Call.Args) >= 2 {
+							finds = append(finds, call)
+						}
+					}
+				}
+			}
+			if len(finds) == 0 {
+				return
+			}
+			for _, b := range f.Blocks {
+				for _, ins := range b.Instrs {
+					sl, ok := ins.(*ssa.Slice)
+					if !ok {
+						continue
+					}
+					if bt, ok := sl.X.Type().Underlying().(*types.Basic); !ok || bt.Info()&types.IsString == 0 {
+						continue
+					}
+					for _, fc := range finds {
+						uses := false
+						for _, bnd := range []ssa.Value{sl.Low, sl.High} {
+							if bnd != nil && derivedFrom(bnd, fc, map[ssa.Value]bool{}, 0) {
+								uses = true
+							}
+						}
+						if !uses {
+							continue
+						}
+						n++
+						key := fmt.Sprintf("match-index:%s#%d", fnName(f), n)
+						if sl.X == fc.Call.Args[1] {
+							c.ok("C11-R12", key, p.relFile(sl.Pos()), "positions of a regexp match are applied to the string that was matched", "the sliced value is the argument of "+fc.Call.StaticCallee().Name())
+						} else {
+							c.bad("C11-R12", key, p.relFile(sl.Pos()), fnName(f)+" slices "+describeValue(sl.X)+" with positions that "+fc.Call.StaticCallee().Name()+" reported for another string ("+describeValue(fc.Call.Args[1])+"): when the two differ (a leading '.' was trimmed) the text compared with the reserved names is shifted by one and 'operator()' / '(anonymous namespace)' are cut as if they were argument lists")
+						}
+					}
+				}
+			}
+		})
+	})
+	if n == 0 {
+		c.ok("C11-R12", "match-index:none", "", "prune.go slices no string with regexp match positions", "nothing to check")
+	}
+}
+
+// latchedFlagNotOverwritten (C07-R13): a flag that records "some column had to move" over a
+// loop is only ever raised inside it.  A boolean that lives across iterations and is read
+// after the loop must not be overwritten in an iteration with a value that ignores what it
+// held (flag = idx != i): the last column then decides alone, profiles whose types are permuted
+// but end in the same column are left unaligned and the merge rejects them.  (A loop that
+// leaves as soon as the fresh value is tested is the "all of" / "any of" idiom and is fine.)
+func (c *Check) latchedFlagNotOverwritten(rule string, fns ...*ssa.Function) {
+	p := c.P
+	n := 0
+	for _, f0 := range fns {
+		forEachFuncAndAnon(f0, func(f *ssa.Function) {
+			for _, b := range f.Blocks {
+				for _, ins := range b.Instrs {
+					phi, ok := ins.(*ssa.Phi)
+					if !ok {
+						break
+					}
+					if bt, ok := phi.Type().Underlying().(*types.Basic); !ok || bt.Kind() != types.Bool {
+						continue
+					}
+					// a loop header: some predecessor is dominated by this block
+					var back []int
+					for i, pr := range b.Preds {
+						if b.Dominates(pr) {
+							back = append(back, i)
+						}
+					}
+					if len(back) == 0 || len(back) == len(b.Preds) {
+						continue
+					}
+					inLoop := func(x *ssa.BasicBlock) bool {
+						if !b.Dominates(x) {
+							return false
+						}
+						for _, i := range back {
+							if x == b.Preds[i] || blockReachesAvoid(x, b.Preds[i], b) {
+								return true
+							}
+						}
+						return false
+					}
+					// read after the loop
+					usedAfter := false
+					for _, r := range *phi.Referrers() {
+						if r.Block() != nil && !inLoop(r.Block()) && r.Block() != b {
+							usedAfter = true
+						}
+						if r.Block() == b {
+							if _, isIf := r.(*ssa.If); !isIf {
+								if _, isPhi := r.(*ssa.Phi); !isPhi {
+									usedAfter = true
+								}
+							}
+						}
+					}
+					if !usedAfter {
+						continue
+					}
+					for _, i := range back {
+						e := phi.Edges[i]
+						if e == ssa.Value(phi) {
+							continue
+						}
+						if k, isK := e.(*ssa.Const); isK && k.Value != nil {
+							continue
+						}
+						if dependsOnValue(e, phi, map[ssa.Value]bool{}, 0) {
+							continue // raised (or combined), not overwritten
+						}
+						// the fresh value decides an exit of the loop: the all-of / any-of idiom
+						exits := false
+						if refs := e.Referrers(); refs != nil {
+							for _, r := range *refs {
+								if iff, ok := r.(*ssa.If); ok {
+									for _, sc := range iff.Block().Succs {
+										if !inLoop(sc) && sc != b {
+											exits = true
+										}
+									}
+								}
+							}
+						}
+						if exits {
+							continue
+						}
+						n++
+						c.bad(rule, fmt.Sprintf("latched-flag:%s#%d", fnName(f), n), p.relFile(phi.Pos()), fnName(f)+" overwrites a boolean in every iteration of a loop and reads it after the loop: only the last iteration counts (sample types permuted in any but the last column are reported as already aligned, and the profiles are then rejected as incompatible)")
+					}
+				}
+			}
+		})
+	}
+	if n == 0 {
+		c.ok(rule, "latched-flag:scan", "", "flags that summarise a loop are raised, never overwritten, inside it", fmt.Sprintf("%d functions scanned for a boolean loop phi whose back edge ignores the previous value", len(fns)))
+	}
+}
+
+// dependsOnValue: v is computed from root (through phis, boolean operators, conversions).
+func dependsOnValue(v, root ssa.Value, seen map[ssa.Value]bool, d int) bool {
+	if v == root {
+		return true
+	}
+	if seen[v] || d > 10 {
+		return false
+	}
+	seen[v] = true
+	if ins, ok := v.(ssa.Instruction); ok {
+		if _, isCall := v.(*ssa.Call); isCall {
+			return false
+		}
+		var ops []*ssa.Value
+		for _, op := range ins.Operands(ops) {
+			if op != nil && *op != nil && dependsOnValue(*op, root, seen, d+1) {
+				return true
+			}
+		}
+	}
+	return false
+}
